@@ -161,7 +161,7 @@ def step_case(prog, case, budget):
                 samples.append(dict(line=str(ctx.line), actor=ctx.actor, replies=[buf_text(b) for b in ctx.written][:6],
                                     deliveries={n: [buf_text(b) for b in q][:3] for n, q in ctx.queues.items() if q},
                                     world_true=sorted(k for k, v in wm.items() if v is True)[:40], obligations_checked=len(obs), decisions=M.pos))
-    explore(prog, run, on, stats=st, timeout_ms=budget.get('solver_ms', 10000), max_steps=budget.get('steps', 3_000_000),
+    explore(prog, run, on, stats=st, prefix=case.get('prefix'), timeout_ms=budget.get('solver_ms', 10000), max_steps=budget.get('steps', 3_000_000),
             max_paths=budget.get('paths', 100000), deadline=(time.time() + budget['case_s']) if budget.get('case_s') else None)
     return dict(stats=st, findings=findings, samples=samples, nontrivial=nontriv[0], case=case.get('name', str(case.get('line'))), witnesses=witnesses)
 
